@@ -484,15 +484,28 @@ func (p *Path) makeSlice(fr *frame, in *ssa.MakeSlice) Value {
 	p.check(tt.And(tt.SLe(BVConstU(0, 64), ln), tt.SLe(ln, cp)), "makeslice: len out of range")
 	limit := p.hr.h.allocLimit()
 	if !cp.IsConst() || cp.Int64() > limit {
-		p.check(tt.SLe(cp, BVConstI(limit, 64)), fmt.Sprintf("makeslice: cap exceeds harness allocation limit %d", limit))
+		// allocations beyond the harness limit are outside the bound (stated in the evidence), not a Go panic
+		within := tt.SLe(cp, BVConstI(limit, 64))
+		if !within.IsTrue() {
+			p.hr.noteOutside(fmt.Sprintf("paths allocating more than %d elements in one make() are cut (outside the bound)", limit))
+			p.assume(within)
+		}
 	}
 	if p.hr.allocHook != nil {
 		p.hr.allocHook(p, cp)
+	}
+	if lz := p.hr.h.LazyMake; lz > 0 && !cp.IsConst() { // intr_lazymake.go
+		if v, ok := p.lazyMake(in, ln, cp, lz); ok {
+			return v
+		}
 	}
 	n := int(p.concretize(cp, "make cap").Int64())
 	elem := in.Type().Underlying().(*types.Slice).Elem()
 	at := types.NewArray(elem, int64(n))
 	o := p.newObject(p.zero(at), at)
+	if ln == cp { // make([]T, n): len and cap are the same term, now fixed to n by the path condition
+		ln = BVConstU(uint64(n), 64)
+	}
 	return SliceV{Arr: Ptr{Obj: o}, Len: ln, Cap: BVConstU(uint64(n), 64)}
 }
 
@@ -541,6 +554,11 @@ func (p *Path) sliceOp(fr *frame, in *ssa.Slice) Value {
 			mx = n
 		}
 		p.check(tt.And(tt.And(tt.ULe(lo, hi), tt.ULe(hi, mx)), tt.ULe(mx, n)), "slice bounds out of range")
+		if !lo.IsConst() && p.symSlicesOn() { // symslice.go
+			if v, ok := p.symSliceOf(s, 0, lo, hi, mx, in.X.Type().Underlying().(*types.Pointer).Elem().Underlying().(*types.Array).Elem()); ok {
+				return v
+			}
+		}
 		l := int(p.concretize(lo, "slice low").Int64())
 		return SliceV{Arr: s, Off: l, Len: tt.BVSub(hi, lo), Cap: tt.BVSub(mx, BVConstU(uint64(l), 64))}
 	case SliceV:
@@ -551,12 +569,20 @@ func (p *Path) sliceOp(fr *frame, in *ssa.Slice) Value {
 			mx = s.Cap
 		}
 		p.check(tt.And(tt.And(tt.ULe(lo, hi), tt.ULe(hi, mx)), tt.ULe(mx, s.Cap)), "slice bounds out of range")
+		if !lo.IsConst() && p.symSlicesOn() && s.Arr.Obj != nil { // symslice.go
+			if v, ok := p.symSliceOf(s.Arr, s.Off, lo, hi, mx, in.X.Type().Underlying().(*types.Slice).Elem()); ok {
+				return v
+			}
+		}
 		l := int(p.concretize(lo, "slice low").Int64())
 		lc := BVConstU(uint64(l), 64)
 		if s.Arr.Obj == nil {
 			return s
 		}
 		return SliceV{Arr: s.Arr, Off: s.Off + l, Len: tt.BVSub(hi, lc), Cap: tt.BVSub(mx, lc)}
+	}
+	if s, ok := x.(SymSliceV); ok { // symslice.go
+		return p.symReslice(s, lo, hi, mx)
 	}
 	panic(p.abort("slice of " + describe(x)))
 }
@@ -617,6 +643,7 @@ func (p *Path) indexAddr(fr *frame, in *ssa.IndexAddr) Value {
 			n = int(s.Len.Int64())
 		} else {
 			n = p.arrayLen(s.Arr) - s.Off
+			p.lazyGuard(s, idx, n) // intr_lazymake.go
 		}
 		if isScalarType(et) && n <= p.hr.h.maxSymIndex() {
 			r := s.Arr.child(s.Off)
@@ -624,6 +651,9 @@ func (p *Path) indexAddr(fr *frame, in *ssa.IndexAddr) Value {
 			return r
 		}
 		return s.Arr.child(s.Off + int(p.concretize(idx, "slice index").Int64()))
+	}
+	if s, ok := x.(SymSliceV); ok { // symslice.go
+		return p.symIndexAddr(s, idx)
 	}
 	panic(p.abort("IndexAddr of " + describe(x)))
 }
@@ -861,6 +891,8 @@ func (p *Path) builtin(fr *frame, b *ssa.Builtin, args []Value, cc *ssa.CallComm
 			return BVConstU(uint64(len(x)), 64)
 		case SliceV:
 			return x.Len
+		case SymSliceV:
+			return x.Len
 		case *MapObj:
 			if x == nil {
 				return BVConstU(0, 64)
@@ -879,6 +911,8 @@ func (p *Path) builtin(fr *frame, b *ssa.Builtin, args []Value, cc *ssa.CallComm
 	case "cap":
 		switch x := args[0].(type) {
 		case SliceV:
+			return x.Cap
+		case SymSliceV:
 			return x.Cap
 		case *ArrayV:
 			return BVConstU(uint64(len(x.E)), 64)
@@ -1002,8 +1036,12 @@ func (p *Path) appendOp(a, b Value, cc *ssa.CallCommon) Value {
 }
 
 func (p *Path) copyOp(dst, src Value) Value {
+	if v, ok := p.symCopy(dst, src); ok { // symslice.go
+		return v
+	}
 	d := dst.(SliceV)
 	var srcVals []Value
+	minDone := false
 	switch x := src.(type) {
 	case StrV:
 		for i := 0; i < len(x); i++ {
@@ -1014,6 +1052,7 @@ func (p *Path) copyOp(dst, src Value) Value {
 		if !x.Len.IsConst() || !d.Len.IsConst() {
 			n := p.tt.Ite(p.tt.ULt(x.Len, d.Len), x.Len, d.Len)
 			nv := int(p.concretize(n, "copy length").Int64())
+			minDone = true // srcVals holds exactly min(len(dst), len(src)) elements: dst length needs no further concretization
 			if nv == 0 {
 				return BVConstU(0, 64)
 			}
@@ -1032,7 +1071,7 @@ func (p *Path) copyOp(dst, src Value) Value {
 		if int(d.Len.Int64()) < dl {
 			dl = int(d.Len.Int64())
 		}
-	} else {
+	} else if !minDone {
 		dn := int(p.concretize(d.Len, "copy dst length").Int64())
 		if dn < dl {
 			dl = dn
@@ -1124,8 +1163,24 @@ func (p *Path) tryMerge(fr *frame, in *ssa.If, c *Term) bool {
 	default:
 		return false
 	}
-	if len(join.Preds) != 2 {
+	if len(join.Preds) < 2 {
 		return false
+	}
+	if len(join.Preds) > 2 {
+		// join with further predecessors (e.g. a loop header reached by "if c { x++ }; continue"):
+		// fine as long as the two edges taken here are distinct predecessors of join
+		n0, n1 := 0, 0
+		for _, pred := range join.Preds {
+			if pred == tb && arms[0] != nil || pred == blk && arms[0] == nil {
+				n0++
+			}
+			if pred == fb && arms[1] != nil || pred == blk && arms[1] == nil {
+				n1++
+			}
+		}
+		if n0 != 1 || n1 != 1 {
+			return false
+		}
 	}
 	// every phi in join must merge scalars
 	var phis []*ssa.Phi
